@@ -323,6 +323,45 @@ def main():
         else:
             run.oracle_ok("ctx_sequential")
 
+    # ---- the original is a temporary (`with make_td().transpose(0, 1) as y:`): it is gone when the block exits; there is nothing to
+    # write back to and the exit must simply return (the yielded object keeps the edits)
+    import gc
+    for i in range(40 if quick else 400):
+        n1 = rng.choice(["transpose", "permute", "squeeze", "unsqueeze", "flatten", "unflatten", "view", "flatten_keys", "unflatten_keys"])
+        st = L.gen_state(rng, for_op=n1)
+        st = (st[0], st[1], st[2], False)
+        op1 = L.gen_canonical(rng, st, n1)
+        if op1[0] == "squeeze" and op1[1] is None:
+            continue
+        sp1 = rng.choice(L.spellings(op1, st))
+        edits = rng.choice([[], [("value",)], [("add", ("z",))], [("swap",)]])
+        case = {"original": "temporary", "op": list(op1), "spelling": [list(sp1[0]), sp1[1]], "edits": [list(e) for e in edits], "state": L.enc_state(st)}
+        run.case(json.dumps(case, default=str))
+        try:
+            probe = L.apply_spelled(L.build(st), op1[0], *sp1)     # is the call itself valid?
+        except Exception:  # noqa: BLE001
+            continue
+        if probe._last_op is None:
+            continue
+        del probe
+        try:
+            with L.time_limit(30.0):
+                with L.apply_spelled(L.build(st), op1[0], *sp1) as y:
+                    gc.collect()
+                    alive = y._last_op is not None and y._last_op[1][2]() is not None
+                    for j, e in enumerate(edits):
+                        L.do_edit(y, e, j)
+                    want = y.clone()
+        except Exception as e:  # noqa: BLE001
+            run.oracle_fail("ctx_temp", case, f"block on a temporary original raised {type(e).__name__}: {str(e)[:140]}", f"temp:{op1[0]}:raises:{L.err_class(e)}")
+            continue
+        run.count("temp.original_alive", alive)
+        bad = L.same_td(y, want)
+        if bad:
+            run.oracle_fail("ctx_temp", case, f"the yielded object changed at exit: {bad}", f"temp:{op1[0]}:changed")
+        else:
+            run.oracle_ok("ctx_temp")
+
     # ---- extended domain (oracle only): lazy-stack originals, unlocked / locked through the stack / locked only through the members
     for i in range(120 if quick else 1200):
         n1 = rng.choice(["transpose", "permute", "unsqueeze", "flatten", "unflatten", "view", "squeeze", "flatten_keys", "unflatten_keys", "lock_", "unlock_"])
